@@ -44,7 +44,7 @@ ParsedLines(f) == LET ls == Split(f, <<>>, <<>>) IN [i \in 1..Len(ls) |-> Parsed
 (* Clause predicates over a parsed file  ls = << <<w, s, complete>>, ... >>  — shared with LogAppendTrace *)
 AllLinesComplete(ls) == \A i \in 1..Len(ls) : ls[i][3] = 1
 OfWriter(ls, w) == SelectSeq(ls, LAMBDA x : x[3] = 1 /\ x[1] = w)
-WriterOrdered(ls, w) == LET q == OfWriter(ls, w) IN \A k \in 1..(Len(q) - 1) : q[k][2] < q[k + 1][2]
+WriterOrdered(ls, w) == LET q == OfWriter(ls, w) IN \A k \in 1..(Len(q) - 1) : q[k][2] <= q[k + 1][2]
 OrderOK(ls, nw) == \A w \in 1..nw : WriterOrdered(ls, w)
 Count(ls, w, s) == Len(SelectSeq(ls, LAMBDA x : x[3] = 1 /\ x[1] = w /\ x[2] = s))
 NoDuplicate(ls, nw, nr) == \A w \in 1..nw : \A s \in 1..nr : Count(ls, w, s) <= 1
